@@ -26,6 +26,36 @@ def single_def(fn, name):
     return None
 
 
+def is_current_event(M, fn, e, depth):
+    """e denotes the event the session's loop is processing: the loop variable of `for x in self.sim_engine`, or a parameter of a private step that every
+    call site binds to such a value"""
+    if depth > 3 or not isinstance(e, ast.Name):
+        return False
+    if e.id in fn.params:
+        sites = [(c, n) for c, n in M.call_sites(fn.qn) if isinstance(n, ast.Call)]
+        if not sites or not fn.name.startswith('_'):
+            return False
+        ps = fn.pos_params
+        if fn.cls is not None and not fn.is_static and ps and ps[0] in ('self', 'cls'):
+            ps = ps[1:]
+        for c, n in sites:
+            arg = None
+            if e.id in ps and ps.index(e.id) < len(n.args):
+                arg = n.args[ps.index(e.id)]
+            for k in n.keywords:
+                if k.arg == e.id:
+                    arg = k.value
+            if arg is None or not is_current_event(M, c, arg, depth + 1):
+                return False
+        return True
+    d = single_def(fn, e.id)
+    if isinstance(d, tuple) and isinstance(d[1], ast.For) and ast.unparse(d[1].iter) == 'self.sim_engine':
+        return True
+    if isinstance(d, ast.Name):
+        return is_current_event(M, fn, d, depth + 1)
+    return False
+
+
 def classify_time_arg(M, fn, e, depth=0):
     """-> (verdict, idiom).  verdict: 'ok' | 'bad' | 'unknown'"""
     if depth > 4:
@@ -48,8 +78,7 @@ def classify_time_arg(M, fn, e, depth=0):
         if isinstance(b, ast.Name) and e.attr == 'dt' and b.id in fn.params and b.id in ('txn', 'transaction'):
             return 'ok', 'time stamp of the Transaction being applied'
         if isinstance(b, ast.Name) and e.attr == 'ts':
-            d = single_def(fn, b.id)
-            if isinstance(d, tuple) and isinstance(d[1], ast.For) and ast.unparse(d[1].iter) == 'self.sim_engine':
+            if is_current_event(M, fn, b, 0):
                 return 'ok', 'time stamp of the current simulation event'
         if e.attr in ('start_dt', 'end_dt', 'start_date', 'end_date', 'burn_in_dt', 'ending_day', 'starting_day'):
             return 'bad', 'a fixed session date (%s), not the current time' % e.attr
